@@ -1,20 +1,20 @@
 SPECIFICATION MCSpec
 CONSTANTS
-  R = {"a"}
-  MinISR = 1
+  R = {"a", "b", "c"}
+  MinISR = 2
   FetchMax = 2
   HWFallback = FALSE
   ElectAlive = FALSE
   AllowLag = FALSE
   ElectDown = TRUE
-  MaxMsgs = 4
-  MaxElect = 0
-  MaxCrash = 2
-  MaxIsrOps = 0
-  MaxRejects = 1
-  Policies = {"ALL", "LEADER", "NONE"}
-  UseCheckpoint = TRUE
-  MaxPause = 0
+  MaxMsgs = 2
+  MaxElect = 1
+  MaxCrash = 1
+  MaxIsrOps = 2
+  MaxRejects = 0
+  Policies = {"ALL"}
+  UseCheckpoint = FALSE
+  MaxPause = 1
   Batch = 1
   IgnoreTaints = FALSE
 INVARIANTS Inv_CommittedSurvives Inv_NoDivergence Inv_HWBacked Inv_Nacked Inv_Struct
